@@ -11,7 +11,7 @@ CONSTANTS
   LimitN = 20
   HasKill = TRUE
   AllowKill = FALSE
-  AllowFds = FALSE
+  AllowFds = TRUE
   AllowFlush = TRUE
   AtomicPoll = TRUE
 INVARIANTS Emit PollOK TokensOK InterestsOK
